@@ -24,7 +24,7 @@ from vf import progmodel as pm
 
 PROPERTY = 'C04'
 LEVEL = 'exploration'
-RULE = ('one case = (program of the family (eleven programs; one has a main body blocked in a C '
+RULE = ('one case = (program of the family (thirteen programs; one has a main body blocked in a C '
         'wait with cancel_timeout_s = 50 ms and teardown phases that use the test API), mode in {abort, sigint, inline, double, stress}, '
         'pause point (thread role, function, line, hit) taken from a discovery run of that '
         'program, or a seed); every line reached by any family program (first and second hit) is the '
@@ -107,6 +107,14 @@ FAMILY = [
     ([_p('a', plugs=[0]), ['G', [_p('s')], [_p('m', r='HU')],
                             [_p('t1', m='pass'), _s('t2', 0.005, m='pass')]], _p('z')],
      {'cancel_timeout_s': 0.05}),
+    # the same with cancel_timeout_s = 0 ("kill, do not wait")
+    ([['G', [_p('s', plugs=[0])], [_p('m', r='HU')], [_p('t1', m='pass')]], _p('z')],
+     {'cancel_timeout_s': 0}),
+    # slow bodies with phase diagnosers attached (an aborted invocation is not
+    # diagnosed)
+    ([_s('a', 0.02, ds=[[['D1', 0]]], plugs=[0]),
+      ['G', [_s('s', 0.01, ds=[[['D1', 0]]])], [_s('m', 0.02, ds=[[['D2', 1]]])],
+       [_s('t1', 0.01, ds=[[['D1', 0]]])]], _p('z')], {}),
     # 9: long teardown (for second aborts)
     ([['G', [_p('s', plugs=[0])], [_s('m', 0.01, noarg=True)],
        [_s('t1', 0.03, noarg=True), _s('t2', 0.03), _p('t3')]], _p('z')], {}),
@@ -595,6 +603,17 @@ def judge(prog, cfg, obs, ctx, mode, not_running=False):
                  (cleanup is None or e[0] < cleanup) for e in ev)
     if not killed and h[3] not in tds:
       bad('running-body-not-asked-to-terminate', phase=h[3])
+  # (11) an invocation that was killed is recorded as killed and not diagnosed ----
+  for e in ev:
+    if e[2] == 'raised' and e[5] == 'ThreadTerminationError':
+      pid, inv = e[3], e[4]
+      if (pid, inv) in {(h[3], h[4]) for h in ev if h[2] == 'hang_unkillable'}:
+        continue
+      later_diag = [d for d in ev if d[2] == 'diag' and d[3] == pid and d[0] > e[0]]
+      c['killed_invocations_judged'] = c.get('killed_invocations_judged', 0) + 1
+      if later_diag and not any(x[2] == 'start' and x[3] == pid and x[0] > e[0]
+                                for x in ev):
+        bad('diagnoser-ran-for-a-killed-invocation', phase=pid)
   # (10) what a body that ran to completion did is what its record says ---------
   behs = {n[1]: n[2] for n, _ in pm.walk(prog) if n[0] == 'P'}
   recs_by_name = {}
